@@ -48,6 +48,13 @@ class Tr:
         self.fall = none_fallthrough
 
     def expr(self, e):
+        if isinstance(e, ast.Compare) and len(e.ops) > 1:
+            parts = []
+            left = e.left
+            for op, right in zip(e.ops, e.comparators):
+                parts.append(self.expr(ast.Compare(left=left, ops=[op], comparators=[right])))
+                left = right
+            return "(" + " ∧ ".join(parts) + ")"
         if isinstance(e, ast.Compare) and len(e.ops) == 1:
             l, r = self.expr(e.left), self.expr(e.comparators[0])
             t = type(e.ops[0])
@@ -294,7 +301,135 @@ end Gaftools.Gen
 """ % e
 
 
+def _so_ln_expr(tr_fallback, seg_name):
+    """recognise int(X.tags["SO"][1]) / int(X.tags["LN"][1]) (X = a name or intervals[mid]) and int(name)"""
+    def rec(e):
+        if isinstance(e, ast.Call) and isinstance(e.func, ast.Name) and e.func.id == "int" and len(e.args) == 1:
+            a = e.args[0]
+            # X.tags["SO"][1]
+            if (isinstance(a, ast.Subscript) and isinstance(a.slice, ast.Constant) and a.slice.value == 1
+                    and isinstance(a.value, ast.Subscript) and isinstance(a.value.slice, ast.Constant)
+                    and a.value.slice.value in ("SO", "LN") and isinstance(a.value.value, ast.Attribute) and a.value.value.attr == "tags"):
+                return "%s.so" % seg_name if a.value.slice.value == "SO" else "(%s.en - %s.so)" % (seg_name, seg_name)
+            if isinstance(a, ast.Name):
+                return {"query_start": "qs", "query_end": "qe"}.get(a.id) or (_ for _ in ()).throw(Untranslatable("int(%s)" % a.id))
+        return None
+    return rec
+
+
+def gen_search_intervals():
+    path, src = src_of("gaftools/utils.py")
+    fn = find_func(ast.parse(src), "search_intervals")
+    args = [a.arg for a in fn.args.args]
+    if args != ["intervals", "query_start", "query_end", "start", "end"]:
+        raise Untranslatable("search_intervals signature %s" % args)
+    special = _so_ln_expr(None, "sg")
+    NAMES = {"query_start": "qs", "query_end": "qe", "start": "start", "end": "end_", "mid": "mid"}
+
+    class T(Tr):
+        def expr(self, e):
+            r = special(e)
+            if r is not None:
+                return r
+            if isinstance(e, ast.Name) and e.id in NAMES:
+                return NAMES[e.id]
+            if isinstance(e, ast.BinOp) and isinstance(e.op, ast.FloorDiv):
+                return "(%s / %s)" % (self.expr(e.left), self.expr(e.right))
+            if isinstance(e, ast.Tuple) and len(e.elts) == 2:
+                return "(%s, %s)" % (self.expr(e.elts[0]), self.expr(e.elts[1]))
+            if isinstance(e, ast.Call) and isinstance(e.func, ast.Name) and e.func.id == "search_intervals" and len(e.args) == 5:
+                a = e.args
+                if not (isinstance(a[0], ast.Name) and a[0].id == "intervals" and isinstance(a[1], ast.Name) and a[1].id == "query_start"
+                        and isinstance(a[2], ast.Name) and a[2].id == "query_end"):
+                    raise Untranslatable("recursive call shape")
+                return "searchIv intervals qs qe fuel %s %s" % (self.expr(a[3]), self.expr(a[4]))
+            return Tr.expr(self, e)
+
+        def ret_stmt(self, st):
+            v = st.value
+            if isinstance(v, ast.Call):
+                return self.expr(v)
+            return "some " + self.expr(v)
+
+        def block(self, stmts, ind):
+            # `mid = …` followed by code that indexes intervals[mid]: bind the segment once (IndexError = none)
+            if stmts and isinstance(stmts[0], ast.Assign) and isinstance(stmts[0].targets[0], ast.Name) and stmts[0].targets[0].id == "mid":
+                pad = " " * ind
+                return ("%slet mid := %s\n%smatch intervals[mid.toNat]? with\n%s| none => none\n%s| some sg =>\n%s" % (
+                    pad, self.expr(stmts[0].value), pad, pad, pad, Tr.block(self, stmts[1:], ind + 2)))
+            return Tr.block(self, stmts, ind)
+
+    t = T(lambda o, a: (_ for _ in ()).throw(Untranslatable("attr")), none_fallthrough="none")
+    body = t.block(fn.body, 4)
+    return """import Gaftools.Model.Conv
+/-! generated by harness/translate.py from gaftools/utils.py : search_intervals — do not edit
+    (recursion by fuel; `intervals[mid]` out of range = IndexError = none) -/
+namespace Gaftools.Gen
+open Gaftools.Conv
+def searchIv (intervals : List Seg) (qs qe : Int) : Nat → Int → Int → Option (Int × Int)
+  | 0, _, _ => none
+  | fuel + 1, start, end_ =>
+%s
+end Gaftools.Gen
+""" % body
+
+
+def _cases_from_loop(fn, seg_name_py):
+    """find the if/elif/elif chain assigning `cases = 1/2/3` and return its three tests"""
+    for n in ast.walk(fn):
+        if isinstance(n, ast.If) and any(isinstance(st, ast.Assign) and isinstance(st.targets[0], ast.Name) and st.targets[0].id == "cases"
+                                          and isinstance(st.value, ast.Constant) and st.value.value == 1 for st in n.body):
+            tests = [n.test]
+            cur = n
+            for want in (2, 3):
+                if len(cur.orelse) == 1 and isinstance(cur.orelse[0], ast.If):
+                    cur = cur.orelse[0]
+                    if not any(isinstance(st, ast.Assign) and isinstance(st.value, ast.Constant) and st.value.value == want for st in cur.body):
+                        raise Untranslatable("cases chain")
+                    tests.append(cur.test)
+                else:
+                    raise Untranslatable("cases chain")
+            if cur.orelse:
+                raise Untranslatable("cases chain has a final else")
+            return tests
+    raise Untranslatable("cases chain not found")
+
+
+def gen_overlap_cases():
+    out = []
+    for rel, fname, lean_name in (("gaftools/conversion.py", "to_unstable", "overlapCaseConv"), ("gaftools/cli/index.py", "convert_coord", "overlapCaseIndex")):
+        path, src = src_of(rel)
+        fn = find_func(ast.parse(src), fname)
+        tests = _cases_from_loop(fn, None)
+        special = _so_ln_expr(None, "sg")
+
+        class T(Tr):
+            def expr(self, e):
+                r = special(e)
+                if r is not None:
+                    return r
+                if isinstance(e, ast.Name) and e.id in ("s", "e"):
+                    return {"s": "sg.so", "e": "sg.en"}[e.id]      # s = int(SO), e = int(SO) + int(LN) in to_unstable
+                return Tr.expr(self, e)
+        t = T(lambda o, a: (_ for _ in ()).throw(Untranslatable("attr")))
+        e1, e2, e3 = (t.expr(x) for x in tests)
+        out.append("/-- the three `cases` of %s (%s) -/\ndef %s (sg : Seg) (qs qe : Int) : Nat :=\n  if %s then 1\n  else if %s then 2\n  else if %s then 3\n  else 0\n" % (fname, rel, lean_name, e1, e2, e3))
+    # guard: in to_unstable `s` and `e` must be defined as SO and SO+LN of the loop variable
+    path, src = src_of("gaftools/conversion.py")
+    if 's = int(i.tags["SO"][1])' not in src or 'e = int(i.tags["SO"][1]) + int(i.tags["LN"][1])' not in src:
+        raise Untranslatable("definition of s / e in to_unstable changed")
+    return """import Gaftools.Model.Conv
+/-! generated by harness/translate.py : the overlap tests of conversion.to_unstable and index.convert_coord — do not edit -/
+namespace Gaftools.Gen
+open Gaftools.Conv
+%s
+end Gaftools.Gen
+""" % "\n".join(out)
+
+
 GENERATORS = {
+    "SearchIv": gen_search_intervals,
+    "OverlapCases": gen_overlap_cases,
     "IsSecondary": gen_is_secondary,
     "CmpGaf": gen_cmp_gaf,
     "MergeNodes": gen_merge_nodes,
@@ -328,6 +463,21 @@ def regenerate(only=None):
 
 
 FALLBACK = {
+    "SearchIv": """import Gaftools.Model.Conv
+/-! FALLBACK (source construct outside the translator's subset): hand-written twin re-exported -/
+namespace Gaftools.Gen
+open Gaftools.Conv
+def searchIv (intervals : List Seg) (qs qe : Int) (fuel : Nat) (start end_ : Int) : Option (Int × Int) := Gaftools.Conv.searchIv intervals qs qe fuel start end_
+end Gaftools.Gen
+""",
+    "OverlapCases": """import Gaftools.Model.Conv
+/-! FALLBACK (source construct outside the translator's subset): hand-written twin re-exported -/
+namespace Gaftools.Gen
+open Gaftools.Conv
+def overlapCaseConv (sg : Seg) (qs qe : Int) : Nat := Gaftools.Conv.overlapCase sg qs qe
+def overlapCaseIndex (sg : Seg) (qs qe : Int) : Nat := Gaftools.Conv.overlapCase sg qs qe
+end Gaftools.Gen
+""",
     "IsSecondary": """/-! FALLBACK (source construct outside the translator's subset) -/
 namespace Gaftools.Gen
 def isSecondary (isPrimary : Bool) (mapq : Nat) : Bool := !isPrimary || mapq ≤ 0
